@@ -104,6 +104,41 @@ Theorem C20_zero_first : forall (R : ops) (d : Z) (v : vec R) (k : Z),
 Proof. exact zero_first_exact. Qed.
 Print Assumptions C20_zero_first.
 
+(* Precisely: zeroing by POSITION changes nothing iff the first diff_order eigenvalues are null; when
+   EXACTLY the first diff_order eigenvalues are the null ones (rank of D_d'D_d is n - d; the solver
+   returns them in ascending order) the zeroed positions are exactly the null space. *)
+Theorem C20_zero_first_iff : forall (R : ops) (d : Z) (n : nat) (v : vec R),
+  (forall k, 0 <= k < Z.of_nat n -> zero_first R d v k = v k)
+  <-> (forall k, 0 <= k < Z.of_nat n -> k < d -> v k = t0 R).
+Proof. exact zero_first_iff. Qed.
+Print Assumptions C20_zero_first_iff.
+
+Theorem C20_zero_first_null_space : forall (R : ops) (d : Z) (n : nat) (v : vec R),
+  (forall k, 0 <= k < Z.of_nat n -> (v k = t0 R <-> k < d)) ->
+  forall k, 0 <= k < Z.of_nat n ->
+  zero_first R d v k = v k /\ (zero_first R d v k = t0 R <-> k < d).
+Proof. exact zero_first_null_space. Qed.
+Print Assumptions C20_zero_first_null_space.
+
+(* Zeroing by MAGNITUDE (not what the source does) is harmless iff no genuine eigenvalue is small --
+   false on long axes, where the smallest genuine eigenvalues of D'D shrink like (c/N)^(2d) ... *)
+Theorem C20_zero_below_iff : forall (R : ops) (small : T R -> bool) (n : nat) (v : vec R),
+  (forall k, 0 <= k < Z.of_nat n -> zero_below R small v k = v k)
+  <-> (forall k, 0 <= k < Z.of_nat n -> small (v k) = true -> v k = t0 R).
+Proof. exact zero_below_iff. Qed.
+Print Assumptions C20_zero_below_iff.
+
+(* ... witness on the model (diagonal example, eigenvalues (0,0,3,50), diff_order 2, threshold 10):
+   position zeroing is exact, the threshold zeroes the genuine eigenvalue 3 and changes the penalty. *)
+Theorem C20_threshold_zeroing_refuted :
+  (forall k, 0 <= k < 4 -> (wit_vals k = 0 <-> k < 2)) /\
+  (forall k, 0 <= k < 4 -> zero_first ZO 2 wit_vals k = wit_vals k) /\
+  zero_below ZO wit_small wit_vals 2 <> wit_vals 2 /\
+  penalty ZO std_cfg 4 1 1 1 (zero_below ZO wit_small wit_vals) (of_list [0]) 2
+  <> penalty ZO std_cfg 4 1 1 1 (zero_first ZO 2 wit_vals) (of_list [0]) 2.
+Proof. exact threshold_zeroing_wrong. Qed.
+Print Assumptions C20_threshold_zeroing_refuted.
+
 (* Kronecker mixed product, all shapes: kron(A,B) @ kron(C,D) = kron(A@C, B@D); with kron_transpose
    this gives U'U = kron(U_r'U_r, U_c'U_c) and U' kron(P_r, I) U = kron(U_r'P_rU_r, U_c'U_c). *)
 Theorem C20_kron_mixed : forall (R : ops),
